@@ -80,14 +80,23 @@ func join(t, u *pt.Type, kt, ku ValKind) *pt.Type {
 		return t
 	}
 	constLike := func(k ValKind) bool { return k == KConst || k == KEmpty }
-	if t.Composite() && u.Composite() && t.K == u.K && constLike(kt) && constLike(ku) {
+	if t.Composite() && u.Composite() && t.K == u.K {
+		// an untyped empty literal takes the type of its sibling, whatever the sibling is
 		switch {
-		case u.Sub == nil:
+		case u.Sub == nil && ku == KEmpty:
 			return t
-		case t.Sub == nil:
+		case t.Sub == nil && kt == KEmpty:
 			return u
 		}
-		return &pt.Type{K: t.K, Sub: join(t.Sub, u.Sub, kt, ku)}
+		if constLike(kt) && constLike(ku) {
+			switch {
+			case u.Sub == nil:
+				return t
+			case t.Sub == nil:
+				return u
+			}
+			return &pt.Type{K: t.K, Sub: join(t.Sub, u.Sub, kt, ku)}
+		}
 	}
 	return pt.TAny
 }
@@ -281,6 +290,14 @@ func joinList(els []pt.Expr, env TEnv) (*pt.Type, ValKind, error) {
 		if i == 0 {
 			sub, kind = t, k
 			continue
+		}
+		if sub.Composite() && t.Composite() && sub.K == t.K && !sub.Eq(t) {
+			nonConst := func(k ValKind) bool { return k == KVar || k == KConstExpr }
+			if (k == KEmpty && nonConst(kind)) || (kind == KEmpty && nonConst(k)) {
+				// "strictest possible type" would adopt the sibling's type; the implementation documents that
+				// variable-typed composites never combine (Type.Fixed) and infers any. Not judged.
+				return nil, 0, &LatitudeErr{"untyped empty literal next to a variable-typed composite element"}
+			}
 		}
 		sub = join(sub, t, kind, k)
 		kind = joinKinds(kind, k)
